@@ -448,6 +448,7 @@ def q_cert(goals, hyps, stats, rounds=2, timeout_ms=120000, max_rows=120000, der
     t0 = time.time()
     info0 = {}
     try:
+        derived = [h for h in derived if len(h.t) <= 200]     # big consequences cost more than they help
         hyps, nz2, nel = eliminate(list(hyps) + list(derived), nz, nopivot=len(derived))
         info0 = {"eliminated": nel, "hyps_left": len(hyps)}
         goals = nz = [g for g in nz2]
